@@ -439,7 +439,7 @@ class MassFunction(transfer.Transfer):
         ):
             # this uses NFW, but we can change that in halomod.
             mnew = self.hmf.measured_mass_definition.change_definition(
-                self.m, self.mdef
+                self.m, self.mdef, z=self.z, cosmo=self.cosmo
             )[0]
             spl = spline(np.log(mnew), np.log(dndm))
             spl2 = spline(self.m, mnew)
